@@ -299,6 +299,28 @@ func classify(c *Case, m *model, out *outcome) {
 	if m.unusableCandidateIn(0, m.n) {
 		out.label("uax14_candidate_inside_glyph_or_grapheme_cluster")
 	}
+	if segs, multi := m.hardSegments(); len(segs) > 0 {
+		out.label("segment_without_usable_grapheme_boundary")
+		if multi {
+			out.label("segment_without_usable_grapheme_boundary_spanning_2_or_more_runs")
+			// ... and the whole-segment fallback is actually needed for it: the policy allows the
+			// grapheme fallback, the line is not the truncating one, some width is below its measure
+			if m.policy() != shaping.Never && c.Cfg.Lines != 1 {
+				for _, sg := range segs {
+					if m.runOf[sg[0]] == m.runOf[sg[1]-1] {
+						continue
+					}
+					lo, _ := m.measure(sg[0], sg[1])
+					for _, w := range c.Widths {
+						if lo.Ceil() > w {
+							out.label("unsplittable_multi_run_segment_wider_than_a_width")
+							break
+						}
+					}
+				}
+			}
+		}
+	}
 	if m.hasLS {
 		out.label("letter_spacing")
 	}
@@ -386,7 +408,13 @@ func runCase(t ev.TB, c *Case) {
 // word and letter spacing, every WrapConfig field, widths around cumulative advances.
 func TestPropSynthetic(t *testing.T) {
 	rapid.Check(t, func(t *rapid.T) {
-		c := genSynthetic(t)
+		var c *Case
+		hostile := rapid.IntRange(0, 5).Draw(t, "stratum") == 4 // stratum H: about one case in six
+		if hostile {
+			c = genHostile(t)
+		} else {
+			c = genSynthetic(t)
+		}
 		b, err := build(c)
 		if err != nil {
 			t.Fatalf("generator produced an unbuildable case: %v", err)
@@ -395,7 +423,11 @@ func TestPropSynthetic(t *testing.T) {
 		if bad != "" {
 			t.Fatalf("generator violated a precondition: %s", bad)
 		}
-		genWidths(t, c, m)
+		if hostile {
+			genHostileWidths(t, c, m)
+		} else {
+			genWidths(t, c, m)
+		}
 		genPrev(t, c)
 		ev.Journal("C02/termination", c) // names the culprit should the process hang or die
 		out := evaluate(t, c, b, m)
